@@ -43,6 +43,7 @@ Inductive site :=
 | SWildcard         (* ast/task.go: regexp.MustCompile on a task name *)
 | STraverseStruct   (* deepcopy.TraverseStringsFunc: Set on an unexported field (time.Time in a variable) *)
 | SMatrixNilMap     (* deepcopy.OrderedMap: Len of the nil map of an empty `matrix: {}` *)
+| SDeepCopyNil      (* deepcopy.Slice calls DeepCopy on a nil element whose method does not check its receiver *)
 | SOther.           (* a panic the model has no site for (never produced by the model) *)
 
 Definition site_eqb (a b : site) : bool :=
@@ -50,7 +51,7 @@ Definition site_eqb (a b : site) : bool :=
   | SVarEmptyMap, SVarEmptyMap | SGlobNil, SGlobNil | SPlatformNil, SPlatformNil
   | SRequiresNil, SRequiresNil | SSnippet, SSnippet | SGitSplit, SGitSplit
   | SWildcard, SWildcard | SOther, SOther
-  | STraverseStruct, STraverseStruct | SMatrixNilMap, SMatrixNilMap => true
+  | STraverseStruct, STraverseStruct | SMatrixNilMap, SMatrixNilMap | SDeepCopyNil, SDeepCopyNil => true
   | _, _ => false
   end.
 
@@ -121,19 +122,20 @@ Record variant := {
   g_wc_quote : bool;       (* WildcardMatch quotes the literal parts of the name *)
   g_wc_must : bool;        (* WildcardMatch uses regexp.MustCompile *)
   g_traverse_struct : bool;(* TraverseStringsFunc copies structs with unexported fields as a whole *)
-  g_omap_nil : bool        (* deepcopy.OrderedMap accepts a nil map *)
+  g_omap_nil : bool;       (* deepcopy.OrderedMap accepts a nil map *)
+  g_deepcopy_nil : bool    (* every DeepCopy method of a pointer-slice element type returns nil for a nil receiver *)
 }.
 
 Definition repaired : variant :=
   {| g_var_len := true; g_glob_nil := true; g_platform_nil := true; g_requires_nil := true;
      g_snippet_clamp := true; g_git_len := true; g_wc_quote := true; g_wc_must := false;
-     g_traverse_struct := true; g_omap_nil := true |}.
+     g_traverse_struct := true; g_omap_nil := true; g_deepcopy_nil := true |}.
 
 (* the tree as pinned (no guard anywhere) *)
 Definition unguarded : variant :=
   {| g_var_len := false; g_glob_nil := false; g_platform_nil := false; g_requires_nil := false;
      g_snippet_clamp := false; g_git_len := false; g_wc_quote := false; g_wc_must := true;
-     g_traverse_struct := false; g_omap_nil := false |}.
+     g_traverse_struct := false; g_omap_nil := false; g_deepcopy_nil := false |}.
 
 (* ------------------------------------------------------------------ *)
 (** * Oracles: verdicts of third-party code on strings                  *)
@@ -374,7 +376,7 @@ Record task := {
   t_generates : list (option glob);
   t_platforms : list (option platform);
   t_requires : list (option reqvar);
-  t_preconds : nat;
+  t_preconds : list (option unit);
   t_status : bool;           (* status: given *)
   t_internal : bool;
   t_aliases : list string;
@@ -753,7 +755,7 @@ Record task_raw := {
 
 Definition task0 : task :=
   {| t_name := ""; t_cmds := []; t_deps := []; t_sources := []; t_generates := []; t_platforms := [];
-     t_requires := []; t_preconds := 0; t_status := false; t_internal := false; t_aliases := []; t_vars_time := false; t_env_time := false |}.
+     t_requires := []; t_preconds := []; t_status := false; t_internal := false; t_aliases := []; t_vars_time := false; t_env_time := false |}.
 
 Definition upd (r : task_raw) (t : task) : task_raw :=
   {| tr_cmds := tr_cmds r; tr_cmd := tr_cmd r; tr_vt := tr_vt r; tr_et := tr_et r; tr_task := t |}.
@@ -782,7 +784,7 @@ Definition set_requires (t : task) (x : list (option reqvar)) : task :=
   {| t_name := t_name t; t_cmds := t_cmds t; t_deps := t_deps t; t_sources := t_sources t; t_generates := t_generates t;
      t_platforms := t_platforms t; t_requires := x; t_preconds := t_preconds t; t_status := t_status t;
      t_internal := t_internal t; t_aliases := t_aliases t; t_vars_time := t_vars_time t; t_env_time := t_env_time t |}.
-Definition set_preconds (t : task) (x : nat) : task :=
+Definition set_preconds (t : task) (x : list (option unit)) : task :=
   {| t_name := t_name t; t_cmds := t_cmds t; t_deps := t_deps t; t_sources := t_sources t; t_generates := t_generates t;
      t_platforms := t_platforms t; t_requires := t_requires t; t_preconds := x; t_status := t_status t;
      t_internal := t_internal t; t_aliases := t_aliases t; t_vars_time := t_vars_time t; t_env_time := t_env_time t |}.
@@ -829,7 +831,7 @@ Definition task_schema : schema task_raw :=
    ("sources", fun r x => dmap (fun l => upd r (set_sources (tr_task r) (olist l))) (d_ptrlist d_glob x));
    ("generates", fun r x => dmap (fun l => upd r (set_generates (tr_task r) (olist l))) (d_ptrlist d_glob x));
    ("status", fun r x => DOk (upd r (set_status (tr_task r) (match slval x with [] => false | _ => true end))) (soft_strlist x));
-   ("preconditions", fun r x => dmap (fun l => upd r (set_preconds (tr_task r) (List.length (olist l)))) (d_ptrlist d_precond x));
+   ("preconditions", fun r x => dmap (fun l => upd r (set_preconds (tr_task r) (olist l))) (d_ptrlist d_precond x));
    ("dir", ign soft_str); ("set", ign soft_strlist); ("shopt", ign soft_strlist);
    ("vars", fun r x => dmap (fun t => {| tr_cmds := tr_cmds r; tr_cmd := tr_cmd r; tr_vt := t; tr_et := tr_et r; tr_task := tr_task r |}) (d_pvars x));
    ("env", fun r x => dmap (fun t => {| tr_cmds := tr_cmds r; tr_cmd := tr_cmd r; tr_vt := tr_vt r; tr_et := t; tr_task := tr_task r |}) (d_pvars x));
@@ -1144,7 +1146,7 @@ Fixpoint run_events (fuel : nat) (tbl : list task) (t : task) (certain : bool) :
                 | None => ev_of (wildcard_scan tbl) false     (* FindMatchingTasks tries every task as a pattern *)
                 end in
               let dep_evs := flat_map (fun d => match d with Some d => callee (dp_task d) false | None => [] end) (t_deps t) in
-              let c2 := c1 && is_nil (t_deps t) && Nat.eqb (t_preconds t) 0 && negb (t_status t)
+              let c2 := c1 && is_nil (t_deps t) && is_nil (t_preconds t) && negb (t_status t)
                         && is_nil (t_sources t) && is_nil (t_generates t) in
               dep_evs ++ run_cmds callee (t_cmds t) c2
           end
@@ -1158,8 +1160,21 @@ Definition table_events (gvt : bool) (tbl : list task) (requested : list string)
   ++ flat_map (fun r => ev_of (get_task tbl r) certain) requested
   ++ flat_map (fun t => if t_internal t then [] else run_events (S (List.length tbl)) tbl t certain) tbl.
 
+(* Task.DeepCopy: deepcopy.Slice calls DeepCopy on every element of cmds, deps, sources,
+   generates, preconditions, platforms (and Requires.DeepCopy on vars), nil ones included *)
+Definition has_nil_elem {A} (l : list (option A)) : bool := existsb (fun x => negb (has_some x)) l.
+
+Definition task_has_nil_elem (t : task) : bool :=
+  has_nil_elem (t_cmds t) || has_nil_elem (t_deps t) || has_nil_elem (t_sources t) || has_nil_elem (t_generates t)
+  || has_nil_elem (t_preconds t) || has_nil_elem (t_platforms t) || has_nil_elem (t_requires t)
+  || existsb (fun c => match c with Some c => has_nil_elem (c_platforms c) | None => false end) (t_cmds t).
+
+Definition slice_deepcopy (t : task) : res unit :=
+  if task_has_nil_elem t && negb (g_deepcopy_nil v) then Panic SDeepCopyNil else Ok tt.
+
 (* Tasks.Merge deep-copies every task of an included file *)
 Definition merge_events (t : task) : list ev :=
+  ev_of (slice_deepcopy t) false ++
   flat_map (fun c => match c with Some c => ev_of (for_deepcopy (c_for c)) false | None => [] end) (t_cmds t)
   ++ flat_map (fun d => match d with Some d => ev_of (for_deepcopy (dp_for d)) false | None => [] end) (t_deps t).
 
